@@ -45,8 +45,26 @@ def worker(args):
     noln = False
     if i % 22 == 1:
         # uncompressed tables of a large rule set: offsets beyond 32767 -> 32-bit elements
+        # (checked with flex alone; another rule set is drawn if this one stays below)
         from . import c01
-        case = c01.large_case(g, rng, case["seed"])
+        for attempt in range(4):
+            case = c01.large_case(g, rng, case["seed"] + attempt)
+            trial = dict(case)
+            trial["opts"] = dict(case["opts"], flavour="nr", tables_file="s.tbl")
+            td = os.path.join(chk.scratch.path, "wide%d_%d" % (i, attempt))
+            os.makedirs(td, exist_ok=True)
+            util.write(os.path.join(td, "s.l"), emit.Emitter(trial, "nr", None).spec().encode("latin1"))
+            runner.flex_generate(chk.flex("san"), os.path.join(td, "s.l"), os.path.join(td, "s.c"),
+                                 lib.tables_args(TABLES[i % len(TABLES)], 8), cwd=td, timeout=60)
+            wide = False
+            try:
+                wide = any(t["width"] == 4 for t in
+                           tblfile.parse(util.read(os.path.join(td, "s.tbl"), True))[0]["tables"])
+            except (OSError, tblfile.FormatError, IndexError):
+                pass
+            shutil.rmtree(td, ignore_errors=True)
+            if wide:
+                break
     if i % 11 == 2:
         # table entries exactly at an element-width boundary: with N user rules plus the
         # default rule the largest yy_accept entry (YY_END_OF_BUFFER) is N + 2; 126 rules
